@@ -587,4 +587,27 @@ theorem sim_all (X : Ext) : ∀ n, SimS X n ∧ SimB X n ∧ SimW X n ∧ SimFor
     have hF1 := simFor_step X n hB hF
     exact ⟨simS_step X n hB hW1 hF, simB_step X n hS hB, hW1, hF1⟩
 
+/-- The target state that holds exactly the bindings of a source state. -/
+def TSt.ofSt (σ : St) : TSt :=
+  ⟨fun x => match σ.env x with | some v => .val v | none => .unbound, σ.log⟩
+
+theorem agree_ofSt (L : List Name) (σ : St) : Agree L σ (TSt.ofSt σ) := by
+  refine ⟨fun x _ => ?_, rfl⟩
+  simp only [TSt.ofSt]
+  cases σ.env x <;> rfl
+
+/-- Source-side facts that come out of the simulation: a block without `return` ends normally or with an
+exception, and only assigned variables become bound. -/
+theorem src_facts_B (X : Ext) (n : Nat) (b : ABlock) (D O : List Name) (σ : St) (o : Out) (σ₁ : St)
+    (hl : LiveB b O) (hd : DeclB b) (hf : DefB D b) (hj : retTopB b = true) (hb : BoundSub σ D)
+    (h : execB X n (eraseB b) σ = some (o, σ₁)) : (noRetB b = true → NJ o) ∧ BoundSub σ₁ (D ++ asgB b) := by
+  obtain ⟨_, h1, h2⟩ := (sim_all X n).2.1 b D O σ (TSt.ofSt σ) o σ₁ hl hd hf hj (agree_ofSt _ σ) hb h
+  exact ⟨h1, h2⟩
+
+theorem src_facts_S (X : Ext) (n : Nat) (s : AStmt) (D : List Name) (σ : St) (o : Out) (σ₁ : St)
+    (hl : LiveS s) (hd : DeclS s) (hf : DefS D s) (hj : retTopS s = true) (hb : BoundSub σ D)
+    (h : exec X n (eraseS s) σ = some (o, σ₁)) : (noRetS s = true → NJ o) ∧ BoundSub σ₁ (D ++ asgS s) := by
+  obtain ⟨_, h1, h2⟩ := (sim_all X n).1 s D σ (TSt.ofSt σ) o σ₁ hl hd hf hj (agree_ofSt _ σ) hb h
+  exact ⟨h1, h2⟩
+
 end Malt.Func
